@@ -1,0 +1,217 @@
+//go:build verif
+
+package comet
+
+import (
+	"sync/atomic"
+)
+
+// This file only exists in builds with the "verif" tag. It lets an external
+// verification harness observe named points of the storage layer, read internal
+// index state (copies, taken under the owner's own lock) and call a few
+// unexported helpers. Nothing here changes the behaviour of the library: the
+// hook handler receives values the code already has in hand and cannot alter
+// control flow, return values or errors.
+
+// VerifHook is the handler type for verifPoint.
+type VerifHook func(point string, args ...any)
+
+var verifHook atomic.Pointer[VerifHook]
+
+// VerifSetHook installs (or, with nil, removes) the process-wide hook handler.
+func VerifSetHook(h VerifHook) {
+	if h == nil {
+		verifHook.Store(nil)
+		return
+	}
+	verifHook.Store(&h)
+}
+
+func verifPoint(point string, args ...any) {
+	if h := verifHook.Load(); h != nil {
+		(*h)(point, args...)
+	}
+}
+
+// ---------------------------------------------------------------------------
+// read-only accessors
+// ---------------------------------------------------------------------------
+
+// VerifHNSWNode is a copy of one graph vertex.
+type VerifHNSWNode struct {
+	ID     uint32
+	Level  int
+	Edges  [][]uint32
+	Vector []float32
+}
+
+// VerifHNSWGraphState is a copy of the graph taken under the index read lock.
+type VerifHNSWGraphState struct {
+	M, EfConstruction, EfSearch int
+	MaxLevel                    int
+	EntryPoint                  uint32
+	Nodes                       map[uint32]VerifHNSWNode
+	Deleted                     []uint32
+}
+
+// VerifHNSWGraph copies the HNSW graph.
+func VerifHNSWGraph(idx *HNSWIndex) VerifHNSWGraphState {
+	idx.mu.RLock()
+	defer idx.mu.RUnlock()
+	st := VerifHNSWGraphState{
+		M: idx.M, EfConstruction: idx.efConstruction, EfSearch: idx.efSearch,
+		MaxLevel: idx.maxLevel, EntryPoint: idx.entryPoint,
+		Nodes:   make(map[uint32]VerifHNSWNode, len(idx.nodes)),
+		Deleted: idx.deletedNodes.ToArray(),
+	}
+	for id, n := range idx.nodes {
+		edges := make([][]uint32, len(n.Edges))
+		for l := range n.Edges {
+			edges[l] = append([]uint32(nil), n.Edges[l]...)
+		}
+		st.Nodes[id] = VerifHNSWNode{
+			ID: n.ID(), Level: n.Level, Edges: edges,
+			Vector: append([]float32(nil), n.Vector()...),
+		}
+	}
+	return st
+}
+
+// VerifStoredVector is one stored (preprocessed) vector with its id.
+type VerifStoredVector struct {
+	ID     uint32
+	Vector []float32
+	Code   []uint8
+}
+
+// VerifIVFStateT is a copy of the IVF structure.
+type VerifIVFStateT struct {
+	Trained   bool
+	Nlist     int
+	Centroids [][]float32
+	Lists     [][]VerifStoredVector
+	Deleted   []uint32
+}
+
+func copy2D(in [][]float32) [][]float32 {
+	out := make([][]float32, len(in))
+	for i := range in {
+		out[i] = append([]float32(nil), in[i]...)
+	}
+	return out
+}
+
+// VerifIVFState copies centroids and inverted lists.
+func VerifIVFState(idx *IVFIndex) VerifIVFStateT {
+	idx.mu.RLock()
+	defer idx.mu.RUnlock()
+	st := VerifIVFStateT{Trained: idx.trained, Nlist: idx.nlist,
+		Centroids: copy2D(idx.centroids), Deleted: idx.deletedNodes.ToArray()}
+	st.Lists = make([][]VerifStoredVector, len(idx.lists))
+	for i, l := range idx.lists {
+		for _, v := range l {
+			st.Lists[i] = append(st.Lists[i], VerifStoredVector{ID: v.ID(),
+				Vector: append([]float32(nil), v.Vector()...)})
+		}
+	}
+	return st
+}
+
+// VerifPQStateT is a copy of the PQ structure.
+type VerifPQStateT struct {
+	Trained              bool
+	M, Nbits, Ksub, Dsub int
+	Codebooks            [][]float32
+	Entries              []VerifStoredVector
+	Deleted              []uint32
+}
+
+// VerifPQState copies codebooks and codes.
+func VerifPQState(idx *PQIndex) VerifPQStateT {
+	idx.mu.RLock()
+	defer idx.mu.RUnlock()
+	st := VerifPQStateT{Trained: idx.trained, M: idx.M, Nbits: idx.Nbits, Ksub: idx.Ksub,
+		Dsub: idx.dsub, Codebooks: copy2D(idx.codebooks), Deleted: idx.deletedNodes.ToArray()}
+	for i, v := range idx.vectorNodes {
+		st.Entries = append(st.Entries, VerifStoredVector{ID: v.ID(),
+			Vector: append([]float32(nil), v.Vector()...),
+			Code:   append([]uint8(nil), idx.codes[i]...)})
+	}
+	return st
+}
+
+// VerifIVFPQStateT is a copy of the IVFPQ structure.
+type VerifIVFPQStateT struct {
+	Trained                     bool
+	Nlist, M, Nbits, Ksub, Dsub int
+	Centroids                   [][]float32
+	Codebooks                   [][]float32
+	Lists                       [][]VerifStoredVector
+	Deleted                     []uint32
+}
+
+// VerifIVFPQState copies centroids, codebooks and the coded lists.
+func VerifIVFPQState(idx *IVFPQIndex) VerifIVFPQStateT {
+	idx.mu.RLock()
+	defer idx.mu.RUnlock()
+	st := VerifIVFPQStateT{Trained: idx.trained, Nlist: idx.nlist, M: idx.M, Nbits: idx.Nbits,
+		Ksub: idx.Ksub, Dsub: idx.dsub, Centroids: copy2D(idx.centroids),
+		Codebooks: copy2D(idx.codebooks), Deleted: idx.deletedNodes.ToArray()}
+	st.Lists = make([][]VerifStoredVector, len(idx.lists))
+	for i, l := range idx.lists {
+		for _, cv := range l {
+			st.Lists[i] = append(st.Lists[i], VerifStoredVector{ID: cv.Node.ID(),
+				Vector: append([]float32(nil), cv.Node.Vector()...),
+				Code:   append([]uint8(nil), cv.Code...)})
+		}
+	}
+	return st
+}
+
+// ---------------------------------------------------------------------------
+// wrappers for unexported pure helpers
+// ---------------------------------------------------------------------------
+
+func VerifMergeResults(r []HybridSearchResult) []HybridSearchResult { return mergeResults(r) }
+func VerifSortResultsByScore(r []HybridSearchResult)                { sortResultsByScore(r) }
+func VerifSanitizeK(k, max int) int                                 { return sanitizeK(k, max) }
+func VerifScoreMapToRanks(m map[uint32]float64, asc bool) map[uint32]int {
+	return scoreMapToRanks(m, asc)
+}
+
+// ---------------------------------------------------------------------------
+// store controls: each only calls an existing method
+// ---------------------------------------------------------------------------
+
+// VerifRotate forces a memtable rotation (memtableQueue.Rotate).
+func (s *PersistentHybridIndex) VerifRotate() { s.memtableQueue.Rotate() }
+
+// VerifEvictAllCaches drops all cached segment indexes (segmentManager.EvictAllCaches).
+func (s *PersistentHybridIndex) VerifEvictAllCaches() { s.segmentManager.EvictAllCaches() }
+
+// VerifSegmentIDs lists the ids of the registered segments.
+func (s *PersistentHybridIndex) VerifSegmentIDs() []uint64 {
+	segs := s.segmentManager.list()
+	ids := make([]uint64, len(segs))
+	for i, sg := range segs {
+		ids[i] = sg.id
+	}
+	return ids
+}
+
+// VerifMemtableCount returns the number of memtables (frozen + writable).
+func (s *PersistentHybridIndex) VerifMemtableCount() int { return s.memtableQueue.Count() }
+
+// VerifMemtableIndexes returns the hybrid index of every memtable, oldest first.
+func (s *PersistentHybridIndex) VerifMemtableIndexes() []HybridSearchIndex {
+	mts := s.memtableQueue.list()
+	out := make([]HybridSearchIndex, len(mts))
+	for i, m := range mts {
+		out[i] = m.index
+	}
+	return out
+}
+
+// VerifCompactNow runs the compaction decision synchronously on the caller's goroutine
+// (the same maybeCompact the background worker runs).
+func (s *PersistentHybridIndex) VerifCompactNow() error { return s.maybeCompact() }
